@@ -17,6 +17,17 @@ for d in sorted(glob.glob(os.path.join(ROOT, "seeded", "*", "meta.json"))):
     rows.append("| %s | %s | %s | %s | %s |" % (name, m.get("breaks", "").replace("|", "/"), m.get("needs", "").replace("|", "/"),
                 "yes" if conf.get("ok") else ("no: " + json.dumps({k: v for k, v in conf.items() if k != "at"})[:80] if conf else "not yet run"),
                 "; ".join(res) or "not yet run"))
-print("| seeded change | what it breaks | what it needs to manifest | confirmed (demo fails with / passes without, builds, existing tests pass) | result of `./check` on the changed tree |")
-print("|---|---|---|---|---|")
-print("\n".join(rows))
+import sys
+HEAD = "| seeded change | what it breaks | what it needs to manifest | confirmed (demo fails with / passes without, builds, existing tests pass) | result of `./check` on the changed tree |"
+table = HEAD + "\n|---|---|---|---|---|\n" + "\n".join(rows) + "\n"
+if "--update" in sys.argv:  # replace the table inside DESIGN.md in place
+    p = os.path.join(ROOT, "DESIGN.md")
+    s = open(p).read()
+    i = s.index(HEAD)
+    k = i
+    while s.startswith("|", k):
+        k = s.index("\n", k) + 1
+    open(p, "w").write(s[:i] + table + s[k:])
+    print("DESIGN.md: %d rows" % len(rows))
+else:
+    print(table, end="")
